@@ -114,7 +114,8 @@ Proof.
       destruct (DepInv_step s0 HI x Hy done L s T G XF u v w HD HuT Hud Hu0)
         as (s1&G1&XF1&Hrun&HD1).
       destruct (dep_step s0 HI x Hy done s T L u v w G XF (di_mid _ _ _ _ _ _ _ HD)
-                  (di_counts _ _ _ _ _ _ _ HD) HuT Hud Hu0) as (s1'&p&q&XF1'&Hrun'&_).
+                  (di_counts _ _ _ _ _ _ _ HD) HuT Hud Hu0 (di_room _ _ _ _ _ _ _ HD))
+        as (s1'&p&q&XF1'&Hrun'&_).
       rewrite Hrun in Hrun'. injection Hrun' as EG _ _.
       rewrite (bind_ok _ _ _ _ _ Hrun).
       apply (IH s1 (T ∖ {[u]}) G1 XF1); try done.
@@ -139,7 +140,7 @@ Context (ox oy : list positive) (Hndx : NoDup ox) (Hndy : NoDup oy).
 Context (Hox : ∀ n, n ∈ ox ↔ ∃ t, succ s0 !! n = Some t ∧ t_lvl t = x).
 Context (Hoy : ∀ n, n ∈ oy ↔ ∃ t, succ s0 !! n = Some t ∧ t_lvl t = x + 1).
 
-Lemma swap_loops_full sC : succ sC = succ s0 → keep s0 sC →
+Lemma swap_loops_full sC : dep_room s0 x → succ sC = succ s0 → keep s0 sC →
   (∀ t n, pred sC !! t = Some n ↔ pred s0 !! t = Some n ∧ n ∉ ox) →
   ∃ sD sE sF dn s6 G XF,
     swap_collect (x + 1) oy sC = (Ok (lk s0 <$> oy), sD) ∧
@@ -148,7 +149,7 @@ Lemma swap_loops_full sC : succ sC = succ s0 → keep s0 sC →
     swap_dep x (x + 1) dn (lk s0 <$> ox) sF = (Ok (G, XF), s6) ∧
     DepInv s0 x L s6 ∅ G XF ∧ Gfull s0 x ∅ G.
 Proof.
-  intros Es Hk Hp.
+  intros Hroom Es Hk Hp.
   destruct (collect_y s0 HI x Hy ox oy Hndy Hox Hoy sC Es Hk Hp) as (sD&HrD&EsD&HkD&HpD).
   destruct (up_phase s0 HI x Hy ox oy Hndy Hox Hoy sD EsD HkD HpD) as (sE&HrE&HkE&HsE&HpE).
   destruct (indep_phase s0 HI x Hy ox Hndx Hox sE HkE HsE HpE) as (sF&dn&HrF&HkF&HsF&Hdn&HpF).
@@ -162,10 +163,11 @@ Proof.
   { apply Mid_init; try done. intros t n. rewrite HpF, HT. done. }
   assert (HCF : Counts sF L) by (apply (Counts_relab s0 x L HC); [done|apply HkF]).
   assert (HD : DepInv s0 x L sF T ∅ ∅).
-  { split; [done|done| | |].
+  { split; [done|done| | | |].
     - intros n Hn. by apply elem_of_empty in Hn.
     - intros n Hn. by apply elem_of_empty in Hn.
-    - intros n H0 [t Hn]. rewrite HsF, lookup_fmap, H0 in Hn. done. }
+    - intros n H0 [t Hn]. rewrite HsF, lookup_fmap, H0 in Hn. done.
+    - apply (room_relab s0 x); [done|apply HkF|by apply Hroom]. }
   assert (HF : Gfull s0 x T ∅).
   { intros u v w Hu Hdep HuT. exfalso. apply HuT, HT. exists (Triple x v w). done. }
   destruct (dep_fold_full s0 HI x Hy dn L (lk s0 <$> ox) sF T ∅ ∅ HD HF)
@@ -197,6 +199,7 @@ Lemma swap_internal s x al L r s' :
   Inv s → Counts s L → last_len s = None → x + 1 < nvars s → levels_ok s al →
   swap x (x + 1) (Some al) s = (r, s') →
   r = Err EOracle ∨
+  (r = Err ERuntime ∧ s' = s ∧ is_Some (max_nodes s)) ∨
   ∃ s6 G XF vx vy,
     DepInv s x L s6 ∅ G XF ∧ Gfull s x ∅ G ∧
     lvl2var s !! x = Some vx ∧ lvl2var s !! (x + 1) = Some vy ∧
@@ -210,6 +213,14 @@ Proof.
   destruct (Hal x ltac:(lia)) as (Sx&HSx&HSxs).
   destruct (Hal (x + 1) Hy) as (Sy&HSy&HSys).
   rewrite HSx. cbn [of_opt]. rewrite (bind_ok _ _ s Sx s) by done.
+  destruct (dep_count_ok s x Sx HI ltac:(lia) HSxs) as (k&Hdc&Hk).
+  rewrite (bind_ok _ _ _ _ _ Hdc).
+  destruct (swap_fits (max_nodes s) (len s) k) eqn:Hfit; cbn [ensure]; cycle 1.
+  { cbn [bind raise]. intros [= <- <-]. right. left. split_and!; try done.
+    by apply (swap_fits_false s k). }
+  rewrite (bind_ok _ _ s tt s) by done.
+  assert (Hroom : dep_room s x).
+  { intros T HT. rewrite (Hk T HT). by apply swap_fits_room. }
   destruct (pop_order Sx s) as [ro sA] eqn:Epo.
   destruct (pop_order_spec Sx s ro sA Epo) as (EsA&EpA&HkA&Hro).
   destruct Hro as [->|(ox&->&Hndx&Hoxs)].
@@ -229,6 +240,7 @@ Proof.
   { intros n. by rewrite Hoys, HSys. }
   destruct (swap_loops_full s HI x Hy L HC Hll ox oy Hndx Hndy Hox Hoy sC)
     as (sD&sE&sF&dn&s6&G&XF&HrD&HrE&HrF&Hr6&HD&HF).
+  { done. }
   { congruence. }
   { by etrans. }
   { intros t n. rewrite EpC. apply HpB. }
@@ -249,7 +261,7 @@ Proof.
     as [rg s8] eqn:Egc.
   destruct (swap_gc s HI x Hy L s6 G XF HD vx vy Hvx Hvy rg s8 Egc) as (->&_).
   rewrite (bind_ok _ _ _ _ _ Egc). cbn [bind get].
-  intros Hrun. right. exists s6, G, XF, vx, vy. split_and!; try done.
+  intros Hrun. right. right. exists s6, G, XF, vx, vy. split_and!; try done.
   assert (s' = s8) as ->; [|done].
   revert Hrun. unfold bind at 1.
   destruct (foldM _ (∅, ∅) ox s8) as [[[nx ny]|e] sa] eqn:E1;
@@ -281,7 +293,7 @@ Theorem swap_nozero s x al L r s' :
 Proof.
   intros HI HC Hll Hy Hal Hrun Hr Hnz.
   destruct (swap_internal s x al L r s' HI HC Hll Hy Hal Hrun)
-    as [?|(s6&G&XF&vx&vy&HD&HF&Hvx&Hvy&Egc)]; [done|].
+    as [?|[(_&->&_)|(s6&G&XF&vx&vy&HD&HF&Hvx&Hvy&Egc)]]; [done|done|].
   destruct (swap_gc s HI x Hy L s6 G XF HD vx vy Hvx Hvy _ s' Egc)
     as (_&HI'&HC'&Hsub&_&_&_&Honly&_).
   pose proof (di_mid _ _ _ _ _ _ _ HD) as HM.
@@ -389,7 +401,7 @@ Lemma swap_nvars s x al L r s' :
 Proof.
   intros HI HC Hll Hy Hal Hrun Hr.
   destruct (swap_internal s x al L r s' HI HC Hll Hy Hal Hrun)
-    as [?|(s6&G&XF&vx&vy&HD&HF&Hvx&Hvy&Egc)]; [done|].
+    as [?|[(_&->&_)|(s6&G&XF&vx&vy&HD&HF&Hvx&Hvy&Egc)]]; [done|done|].
   destruct (swap_gc s HI x Hy L s6 G XF HD vx vy Hvx Hvy _ s' Egc)
     as (_&_&_&_&Hv&_).
   unfold nvars at 1. rewrite Hv.
